@@ -1080,6 +1080,17 @@ def make_c17_case(rng, nlemmas=None, style=None):
         gl = {frozenset(p) for p in th.global_dvs}
         pairs = sorted(tuple(sorted(p)) for p in tgt.dv if p not in gl or rng.random() < 0.3)
         lem = Assertion(label, tgt.term, used_h, dvs=pairs, kind='p')
+        if rng.random() < 0.25 and lem.vars:
+            # a wider-than-needed $d: it also names a declared variable that occurs nowhere else in the lemma (legal Metamath)
+            unused = [v for v in th.f_order if v not in lem.vars and th.f_tc.get(v) == th.f_tc.get(sorted(lem.vars)[0])]
+            if unused:
+                w = rng.choice(unused)
+                v = rng.choice(sorted(lem.vars))
+                extra = tuple(sorted((v, w)))
+                if extra not in pairs:
+                    pairs = sorted(pairs + [extra])
+                    lem = Assertion(label, tgt.term, used_h, dvs=pairs, kind='p')
+                    feats.add('lemma_dv_names_unused_variable')
         lem.shape = 'plain' if not used_h and not pairs and rng.random() < 0.7 else 'block'
         mvars = sorted(lem.vars, key=th.f_index)
         mand = [th.f_label[v] for v in mvars] + [l for l, _ in used_h]
